@@ -4,7 +4,7 @@
     [Extract Constant], no [Extract Inductive] of our own. *)
 From Coq Require Import Extraction ExtrOcamlBasic.
 From Muxide Require Import Model.Base Model.Annexb Model.Adts Model.Codec Model.Boxes Model.F64
-  Model.Writer Model.Api Model.Frag Model.Cli Spec.Bmff Spec.Reader Spec.NalSplit Spec.Checks Spec.Contract Spec.FragSpec Spec.Layout Spec.Headers Spec.HeaderChecks Spec.Av1Syntax Spec.Paths Model.Validation Model.Names Spec.Vp9Syntax.
+  Model.Writer Model.Api Model.Frag Model.Cli Spec.Bmff Spec.Reader Spec.NalSplit Spec.Checks Spec.Contract Spec.FragSpec Spec.Layout Spec.Headers Spec.HeaderChecks Spec.Av1Syntax Spec.Paths Model.Validation Model.Names Spec.Vp9Syntax Model.Defaults.
 Extraction Language OCaml.
 Extraction "../build/ocaml/model.ml"
   Base.len Base.be32 N.add N.mul N.div N.modulo N.eqb N.ltb N.leb N.of_nat N.to_nat N.shiftl N.lor
@@ -27,6 +27,7 @@ Extraction "../build/ocaml/model.ml"
   Av1Syntax.seq_obu Av1Syntax.valid_seq Av1Syntax.seq_level0 Av1Syntax.seq_tier0
   Cli.mux_command Cli.validate_verdict Cli.info_walk Cli.read_hex_bytes
   Paths.explicit_of
+  Defaults.frag_config_default Defaults.opus_config_mono Defaults.opus_config_stereo Defaults.opus_config_default Defaults.opus_with_pre_skip Defaults.opus_with_channels
   Vp9Syntax.vp9_key_frame Vp9Syntax.valid_vp9_key_hdr Vp9Syntax.vp9_bit_depth_of Av1Syntax.f
   Names.parse_video_codec Names.parse_audio_codec Names.video_codec_name Names.audio_codec_name
   Validation.validate_video_config Validation.validate_audio_config Validation.validate_video_frame
